@@ -431,9 +431,17 @@ class Effects(object):
                             if rv.volatile or tt.volatile or (rv.deps & tnames) or (rv.deps & w):
                                 continue
                             gens.append(('eq', tt, rv))
+                # X = (a, b): X[0] == a, X[1] == b  (a position handed on as one value and taken apart later)
+                if isinstance(a.value, ast.Tuple) and len(a.targets) == 1 and isinstance(a.targets[0], ast.Name) and not any(isinstance(e_, ast.Starred) for e_ in a.value.elts):
+                    tn = a.targets[0]
+                    for i_, ve in enumerate(a.value.elts):
+                        rv = tb.term(ve)
+                        if rv.volatile or ('L:' + tn.id) in rv.deps:
+                            continue
+                        gens.append(('eq', tb.term(ast.Subscript(value=ast.Name(id=tn.id, ctx=ast.Load()), slice=ast.Constant(value=i_), ctx=ast.Load())), rv))
                 # a, b = X  (X a local / attribute / element): a == X[0], b == X[1]
                 for t in a.targets:
-                    if isinstance(t, ast.Tuple) and isinstance(a.value, (ast.Name, ast.Attribute, ast.Subscript)) and not any(isinstance(e_, ast.Starred) for e_ in t.elts):
+                    if isinstance(t, ast.Tuple) and isinstance(a.value, (ast.Name, ast.Attribute, ast.Subscript, ast.Call)) and not any(isinstance(e_, ast.Starred) for e_ in t.elts):
                         rv0 = tb.term(a.value)
                         tnames = set('L:' + te.id for te in t.elts if isinstance(te, ast.Name))
                         if rv0.volatile or (rv0.deps & tnames) or (rv0.deps & w):
